@@ -245,6 +245,27 @@ def contract_shorts(branches, protect=()):
     return out, {n: find(n) for n in list(parent)}
 
 
+def has_zero_impedance_loop(nl):
+    """True iff the deactivated network contains a loop of zero-impedance branches (ideal
+    voltage sources / shorts): such a network is ill-posed whatever its source values."""
+    parent = {}
+
+    def find(x):
+        parent.setdefault(x, x)
+        while parent[x] != x:
+            parent[x] = parent[parent[x]]
+            x = parent[x]
+        return x
+    for b in deactivated(nl)["branches"]:
+        z, y = immittance(b)
+        if y is None:
+            ra, rb = find(b[0]), find(b[1])
+            if ra == rb:
+                return True
+            parent[ra] = rb
+    return False
+
+
 def port_impedance(nl, a, b_, solver=None):
     """Exact driving-point impedance between nodes a and b: deactivate sources, contract
     zero-impedance branches, drop parts reachable only through non-conducting branches,
